@@ -726,7 +726,12 @@ func (lh *levelHandler) searchL0SST(key []byte) (*kv.Entry, error) {
 		version uint64
 		best    *kv.Entry
 	)
-	for _, table := range lh.tables {
+	// Walk L0 newest-first: tables are kept in creation order and a lookup only
+	// replaces its candidate for a strictly larger version, so for two copies of
+	// the same internal key (non-transactional writes, lock records) the newest
+	// table must be consulted first.
+	for i := len(lh.tables) - 1; i >= 0; i-- {
+		table := lh.tables[i]
 		if table == nil {
 			continue
 		}
